@@ -89,6 +89,51 @@ class Log:
         return [e for e in self.items if e["kind"] == kind]
 
 
+SIGNATURES = ("llm", "config", "events", "llm_task_manager", "state")
+
+
+def with_signature(f, sig, ver):
+    """The same action with a signature that ALSO declares one of the parameters the runtimes inject by name (the LLM, the
+    RailsConfig, the event history, the task manager, the v2 state). `sig` None = the plain signature."""
+    if not sig or (sig == "state" and ver == "v1"):
+        return f
+    from typing import Optional
+
+    if ver == "v1":
+        if sig == "llm":
+            async def g(context: Optional[dict] = None, llm=None):
+                return await f(context=context)
+        elif sig == "config":
+            async def g(context: Optional[dict] = None, config=None):
+                return await f(context=context)
+        elif sig == "events":
+            async def g(context: Optional[dict] = None, events=None):
+                return await f(context=context)
+        else:
+            async def g(context: Optional[dict] = None, llm_task_manager=None):
+                return await f(context=context)
+    else:
+        if sig == "llm":
+            async def g(text=None, llm=None):
+                return await f(text=text)
+        elif sig == "config":
+            async def g(text=None, config=None):
+                return await f(text=text)
+        elif sig == "events":
+            async def g(text=None, events=None):
+                return await f(text=text)
+        elif sig == "state":
+            async def g(text=None, state=None):
+                return await f(text=text)
+        else:
+            async def g(text=None, llm_task_manager=None):
+                return await f(text=text)
+    g.__name__ = getattr(f, "__name__", "action")
+    if hasattr(f, "action_meta"):
+        g.action_meta = f.action_meta
+    return g
+
+
 def bot_token(cid, t, spec):
     """the text the scripted LLM produces in turn t; `same_bot`: the very same text in every turn of the conversation
     (the rails' verdicts still differ per turn: a rail may depend on more than the text)"""
@@ -205,18 +250,19 @@ class App:
         self.llm = L["RecLLM"](script=self._script, log=self.log)
         self.app = L["LLMRails"](cfg, llm=self.llm)
         k, m = spec["k"], spec["m"]
+        sig = spec.get("sig")
         if self.ver == "v1":
             for i in range(k):
-                self.app.register_action(self._mk_v1("in", i), "vin%d" % i)
+                self.app.register_action(with_signature(self._mk_v1("in", i), sig, "v1"), "vin%d" % i)
             for i in range(m):
-                self.app.register_action(self._mk_v1("out", i), "vout%d" % i)
+                self.app.register_action(with_signature(self._mk_v1("out", i), sig, "v1"), "vout%d" % i)
             if spec.get("dialog_action"):
-                self.app.register_action(self._mk_lookup(), "lookup")
+                self.app.register_action(with_signature(self._mk_lookup(), sig, "v1"), "lookup")
         else:
             for i in range(k):
-                self.app.register_action(self._mk_v2("in", i), "Vin%dAction" % i)
+                self.app.register_action(with_signature(self._mk_v2("in", i), sig, "v2"), "Vin%dAction" % i)
             for i in range(m):
-                self.app.register_action(self._mk_v2("out", i), "Vout%dAction" % i)
+                self.app.register_action(with_signature(self._mk_v2("out", i), sig, "v2"), "Vout%dAction" % i)
 
     # ---- LLM script: a function of the prompt only
     def bot_text(self):
@@ -314,6 +360,17 @@ class App:
                 resp = r.response
                 msg = dict(resp[-1]) if isinstance(resp, list) and resp else {"role": "assistant", "content": resp}
                 return msg, None, r.state
+            if self.ver == "v1" and self.api == "prompt":
+                # completion-style call: generate(prompt=...) returns the text, or the exception message for a rail exception;
+                # every turn is a conversation of its own
+                r = self.app.generate(prompt=user_text, options=options) if options is not None else self.app.generate(prompt=user_text)
+                if options is not None:
+                    r = r.response
+                if isinstance(r, list) and r:
+                    r = r[-1]
+                if isinstance(r, dict) and "role" not in r and str(r.get("type", "")).endswith("Exception"):
+                    r = {"role": "exception", "content": r}  # without options the call returns the bare content of the exception message
+                return (dict(r) if isinstance(r, dict) else {"role": "assistant", "content": r}), None, state
             if self.ver == "v1":
                 msgs.append({"role": "user", "content": user_text})
                 if options is not None:
